@@ -45,4 +45,41 @@ Proof.
   first [ field; repeat split; assumption
         | rewrite (sum_left_ext _ (fun j => nd j * masses j * charges j * De j)) by (intros; ring); field; repeat split; assumption ].
 Qed.
+(* ---- thermal_conductivity: rescaled enthalpies, k', the thermal-diffusion and reaction parts, the assembly ---- *)
+Lemma gen_kappa_rhs1_model nd i : gen_kappa_rhs1 RNum nd i = DTi_rhs1 RNum nd i.
+Proof. unfold gen_kappa_rhs1, DTi_rhs1. same. Qed.
+
+Lemma gen_hv_rescaled_model rho ntot masses h i : gen_hv_rescaled RNum rho ntot masses h i = hv_rescaled RNum rho ntot masses h i.
+Proof. unfold gen_hv_rescaled, hv_rescaled. same. Qed.
+
+Lemma gen_kdash_value_model T masses nd nb a1 : gen_kdash_value RNum U T masses nd nb a1 = kdash_value RNum U T masses nd nb a1.
+Proof.
+  unfold gen_kdash_value, kdash_value, kTv. rnum. f_equal. apply sum_left_ext. intros i. f_equal. f_equal. f_equal. f_equal. ring.
+Qed.
+
+Lemma gen_kdt_value_model T nb hv DT : gen_kdt_value RNum T nb hv DT = kdt_value RNum T nb hv DT.
+Proof. unfold gen_kdt_value, kdt_value, idx_sum. rnum. apply sum_left_ext. intros i. reflexivity. Qed.
+
+Lemma gen_dxdT_value_model T delta nb npos nneg j : gen_dxdT_value RNum T delta nb npos nneg j = dxdT_value RNum T delta nb npos nneg j.
+Proof. unfold gen_dxdT_value, dxdT_value, idx_sum. rnum. reflexivity. Qed.
+
+Lemma gen_krxn_enth_value_model rho ntot masses hv dxdT D nb :
+  gen_krxn_enth_value RNum rho ntot masses hv dxdT D nb = krxn_enth_value RNum rho ntot masses hv dxdT D nb.
+Proof. unfold gen_krxn_enth_value, krxn_enth_value, idx_sum. rnum. ring. Qed.
+
+Lemma gen_krxn_therm_value_model ntot T ni_limit masses nd DT dxdT nb :
+  gen_krxn_therm_value RNum U ntot T ni_limit masses nd DT dxdT nb = krxn_therm_value RNum U ntot T ni_limit masses nd DT dxdT nb.
+Proof. unfold gen_krxn_therm_value, krxn_therm_value, idx_sum. rnum. reflexivity. Qed.
+
+Lemma gen_kappa_total_model dt rho ntot T ni_limit masses nd hv DT dxdT D nb kdash :
+  gen_kappa_total RNum U dt rho ntot T ni_limit masses nd hv DT dxdT D nb kdash
+  = kappa_total RNum U dt rho ntot T ni_limit masses nd hv DT dxdT D nb kdash.
+Proof.
+  unfold gen_kappa_total, kappa_total. cbv zeta.
+  rewrite gen_kdt_value_model, gen_krxn_enth_value_model, gen_krxn_therm_value_model. rnum. destruct dt; reflexivity.
+Qed.
+
+(* the perturbed temperatures at which the composition is re-solved for dx/dT *)
+Lemma gen_kappa_T_pm T delta : gen_kappa_T_pos RNum T delta = T * (1 + delta) /\ gen_kappa_T_neg RNum T delta = T * (1 - delta).
+Proof. unfold gen_kappa_T_pos, gen_kappa_T_neg. rnum. split; reflexivity. Qed.
 End Final.
